@@ -110,6 +110,12 @@ def decShape (v : V) : Option ShapeRow :=
       pure ⟨a, b, c, d, e, f, g, h, i, j, k, l, m⟩
   | _ => none
 
+def decKV (v : V) : Option (String × Rat) :=
+  match v with
+  | .list [.atom k, x] => x.rat?.map fun q => (k, q)
+  | _ => none
+def encKV (p : String × Rat) : V := .list [.atom p.1, encRat p.2]
+
 def handle (args : List V) : V :=
   match args with
   | [.atom "ping"] => .atom "pong"
@@ -363,6 +369,24 @@ def handle (args : List V) : V :=
     match rows.listOf? decShape with
     | some rows => encList encShape (rows.map fun r => Slots.flipShape (Slots.renameShape r))
     | none => bad "mirror.shape"
+  -- C14
+  | [.atom "objs.expand", th] =>
+    match th.listOf? decKV with
+    | some th => encList encKV (expandShorthand th)
+    | none => bad "objs.expand"
+  | [.atom "objs.reduce", th, r] =>
+    match th.listOf? decKV, r.opt? V.rat? with
+    | some th, some r => encList encKV (reduceThresholds th r)
+    | _, _ => bad "objs.reduce"
+  -- C20: marker indices / burst highlight for a view lo … lo+len-1; `x` is the float product the source truncates or rounds
+  | [.atom "plot.markers", lo, len, x, pts] =>
+    match lo.nat?, len.nat?, x.rat?, pts.listOf? V.int? with
+    | some lo, some len, some x, some pts => encList encInt (markerIdx lo len (windowOffset x) pts)
+    | _, _, _, _ => bad "plot.markers"
+  | [.atom "plot.mask", len, x, bursts] =>
+    match len.nat?, x.rat?, bursts.listOf? (fun v => match v with | .list [a, b] => do let a ← a.int?; let b ← b.int?; pure (a, b) | _ => none) with
+    | some len, some x, some bursts => encBits (burstMask len (windowOffset x) bursts)
+    | _, _, _ => bad "plot.mask"
   | _ => bad "unknown-command"
 
 partial def loop (hin : IO.FS.Stream) (hout : IO.FS.Stream) : IO Unit := do
